@@ -1,4 +1,4 @@
-CONSTANTS Writers = {"A", "B"} WithShut = TRUE StaleRead = FALSE
+CONSTANTS Writers = {"A", "B", "C"} WithShut = TRUE StaleRead = FALSE
 SPECIFICATION Spec
 INVARIANTS InvSchedule InvShutDiscards InvMutex
 CHECK_DEADLOCK FALSE
